@@ -45,6 +45,10 @@ impl DedupCas {
 
 impl ContentAddrStore for DedupCas {
     fn get<'a>(&'a self, key: &[u8]) -> Option<Cow<'a, [u8]>> {
+        // scheduling point of the store-seam explorer (sched.rs); a single relaxed load when no exploration is running
+        if crate::sched::ACTIVE.load(Ordering::Acquire) {
+            crate::sched::point(key);
+        }
         let g = self.shards[self.shard(key)].read();
         g.get(key).map(|v| Cow::Owned(v.to_vec()))
     }
